@@ -271,6 +271,25 @@ func c15BaseUnits(ctx *core.Ctx) []core.Unit {
 			z := dirtyFr()
 			z.Neg(&a.e)
 			chk(r, "Neg", in, z, modr(t.Neg(a.reg)))
+			// setters from integers (how operands of the arithmetic are made), on a used receiver, also from the
+			// unreduced representatives v+r and v-r
+			z = dirtyFr()
+			z.SetBigInt(a.reg)
+			chk(r, "SetBigInt (used receiver)", in, z, a.reg)
+			z = dirtyFr()
+			z.SetBigInt(new(big.Int).Add(a.reg, bigR))
+			chk(r, "SetBigInt(v+r) (used receiver)", in, z, a.reg)
+			z = dirtyFr()
+			z.SetBigInt(new(big.Int).Sub(a.reg, bigR))
+			chk(r, "SetBigInt(v-r) (used receiver)", in, z, a.reg)
+			z = dirtyFr()
+			z.SetString(a.reg.String())
+			chk(r, "SetString (used receiver)", in, z, a.reg)
+			if a.reg.IsUint64() {
+				z = dirtyFr()
+				z.SetUint64(a.reg.Uint64())
+				chk(r, "SetUint64 (used receiver)", in, z, a.reg)
+			}
 			fr.VerifNegGeneric(&z, &a.e)
 			chk(r, "_negGeneric", in, z, modr(t.Neg(a.reg)))
 			z.Double(&a.e)
